@@ -421,6 +421,80 @@ func rejectedBeforeStop(b []byte) bool {
 	}
 }
 
+// AfterMatch: the client's input has just been matched by an INCMP; the bytes
+// that follow in the same code (arbitrary) are still decoded, INCMP lines
+// among them although they are inert now. Whatever the reference decoder
+// rejects in what the VM gets to see - these bytes followed by the target
+// node's code - before execution can stop or move again must end the run in
+// an error, not be passed over.
+func AfterMatch(v *vrt.Ctx) {
+	tail := v.Bytes("code", v.Param("L"))
+	rs := app.NewRes()
+	rs.Funcs["f"] = app.Static("x")
+	rs.Node("ab", "ab", app.Code().Halt().Bytes())
+	rs.Node("_catch", "catch", app.Code().Halt().Bytes())
+	st := state.NewState(8)
+	ca := cache.NewCache()
+	st.Down("root")
+	ca.Push()
+	st.SetInput([]byte("1"))
+	st.SetFlag(state.FLAG_READIN)
+	vmi := vm.NewVm(st, rs, ca, render.NewSizer(0))
+	code := append(app.Code().InCmp("ab", "1").Bytes(), tail...)
+	seen := append(append([]byte{}, tail...), app.Code().Halt().Bytes()...)
+	var err error
+	if v.Try(func() { _, err = vmi.Run(context.Background(), code) }) {
+		if movesIntoCurrent(tail, "ab") {
+			return
+		}
+		v.Assert(flagOutOfRange(seen, 16), "C15/run-panics-only-on-out-of-range-flag")
+		return
+	}
+	v.Observe("err", err)
+	if rejectedAfterMatch(seen) {
+		v.Assert(err != nil, "C15/malformed-instruction-after-a-match-is-rejected")
+		v.Cover("C15/aftermatch-malformed")
+	} else {
+		v.Cover("C15/aftermatch-other")
+	}
+}
+
+// rejectedAfterMatch: as rejectedBeforeStop, but INCMP lines are decoded and
+// passed over (a match has been made, they cannot move).
+func rejectedAfterMatch(b []byte) bool {
+	for {
+		if len(b) == 0 {
+			return false
+		}
+		if len(b) < 2 {
+			return true
+		}
+		op := uint16(b[0])<<8 | uint16(b[1])
+		b = b[2:]
+		ok := true
+		switch op {
+		case vm.NOOP, vm.MSINK:
+		case vm.HALT, vm.MOVE, vm.CATCH, vm.CROAK:
+			return false
+		case vm.LOAD:
+			if b, ok = refSym(b); ok {
+				b, ok = refInt(b)
+			}
+		case vm.RELOAD, vm.MAP:
+			b, ok = refSym(b)
+		case vm.INCMP, vm.MOUT, vm.MNEXT, vm.MPREV:
+			if b, ok = refSym(b); ok {
+				b, ok = refSym(b)
+			}
+		default:
+			return true
+		}
+		if !ok {
+			return true
+		}
+	}
+}
+
 // Run: arbitrary bytes as bytecode through Vm.Run on a minimal VM (a state at
 // the entry node, an application with a few nodes and one function): no
 // panic; the run either executes complete instructions or returns an error.
@@ -474,9 +548,10 @@ func Run(v *vrt.Ctx) {
 }
 
 var Harnesses = map[string]func(*vrt.Ctx){
-	"Run":       Run,
-	"ParseLoad": ParseLoad,
-	"Bytes":     Bytes,
-	"LongSym":   LongSym,
-	"LongInt":   LongInt,
+	"Run":        Run,
+	"ParseLoad":  ParseLoad,
+	"Bytes":      Bytes,
+	"LongSym":    LongSym,
+	"LongInt":    LongInt,
+	"AfterMatch": AfterMatch,
 }
